@@ -6,6 +6,8 @@ import (
 	"fmt"
 	"os"
 	"strings"
+
+	"seehuhn.de/go/postscript"
 )
 
 type ctlGen struct {
@@ -126,6 +128,16 @@ var controlFixed = []string{
 	"/a 5 def currentdict /a get userdict /a get eq", "systemdict begin /a 1 def end", "/true false def true", "/x { /x 5 def } def x x",
 }
 
+var plrmLoopCases = []struct{ prog, want string }{
+	{"0 1 1 4 {add} for", "10"}, {"1 2 6 {} for", "1 3 5"}, {"3 -1 1 {} for", "3 2 1"}, {"1 1 0 {} for", ""}, {"5 1 5 {} for", "5"},
+	{"0 4611686018427387904 9223372036854775807 {} for", "0 4611686018427387904"}, {"9223372036854775806 1 9223372036854775807 {} for", "9223372036854775806 9223372036854775807"},
+	{"-9223372036854775807 -1 -9223372036854775808 {} for", "-9223372036854775807 -9223372036854775808"},
+	{"4 {7} repeat", "7 7 7 7"}, {"0 {7} repeat", ""}, {"[1 2 3] {10 mul} forall", "10 20 30"}, {"(AB) {} forall", "65 66"}, {"0 {1 add dup 3 eq {exit} if} loop", "3"},
+	{"1 1 3 {2 {dup exit} repeat} for", "1 1 2 2 3 3"},
+	// PLRM 8.2 `for`: real operands (its own example: 3 -.5 1 {} for)
+	{"0 0.5 1 {} for", "0 0.5 1"}, {"3 -.5 1 {} for", "3 2.5 2 1.5 1"}, {"1 1 2.5 {} for", "1 2"},
+}
+
 func suiteControl(o *suiteOut, r *rng, tier string, n int) {
 	p := newProgSuite(o, "C03")
 	for _, l := range corpusLines("control") {
@@ -135,6 +147,27 @@ func suiteControl(o *suiteOut, r *rng, tier string, n int) {
 	for _, c := range controlFixed {
 		p.run(100000, false, c)
 		o.count("fixed control programs")
+	}
+	// programs with the final operand stack the PLRM prescribes (numbers only)
+	for _, c := range plrmLoopCases {
+		line := runCaseLine(100000, false, c.prog)
+		_, intp, class := runProgram(100000, false, []byte(c.prog))
+		var got []string
+		for _, v := range intp.Stack {
+			switch v := v.(type) {
+			case postscript.Integer:
+				got = append(got, fmt.Sprint(int64(v)))
+			case postscript.Real:
+				got = append(got, fmt.Sprintf("%g", float64(v)))
+			default:
+				got = append(got, fmt.Sprintf("%T", v))
+			}
+		}
+		g := class + " [" + strings.Join(got, " ") + "]"
+		if g != "ok ["+c.want+"]" {
+			o.fail("C03", "every looping operator runs its body the prescribed number of times with the prescribed operands (PLRM table)", line, "ok ["+c.want+"]", g)
+		}
+		o.count("PLRM loop table")
 	}
 	nr, depth := 4000, 4
 	if tier == "thorough" {
